@@ -399,6 +399,65 @@ theorem filter7_grow (s : State) (ns name : String) (nodes : List String) (ch : 
         rw [if_neg hf] at gc
         exact gc
 
+/-- Preempt as an atomic move: the same `getSubnet`, hence the same effect as Filter's -/
+theorem preempt_grow (s : State) (ns name : String) (nodes : List String) (ch : Choice) :
+    (Plugin.preempt s ns name nodes ch).1.pools = s.pools ∧
+    (Coherent s → Coherent (Plugin.preempt s ns name nodes ch).1) ∧
+    ∀ P, P ≠ "" → cntp (mP P) (Plugin.preempt s ns name nodes ch).1.alloc ≤ cntp (mP P) s.alloc ∨
+      (∃ pod, Tbl.get s.pods (ns, name) = some pod ∧ policyOf pod ≠ 0 ∧ (keyOf pod).pool = P ∧ FreshOK s pod ∧
+        cntp (mP P) (Plugin.preempt s ns name nodes ch).1.alloc ≤ cntp (mP P) s.alloc + 1) := by
+  unfold Plugin.preempt
+  cases hp : Tbl.get s.pods (ns, name) with
+  | none => exact ⟨rfl, fun h => h, fun P _ => Or.inl (Nat.le_refl _)⟩
+  | some pod =>
+    dsimp only
+    by_cases hpol : policyOf pod = 0
+    · rw [if_pos hpol]; exact ⟨rfl, fun h => h, fun P _ => Or.inl (Nat.le_refl _)⟩
+    · rw [if_neg hpol, getSubnet_split]
+      -- the state after `getSubnet` and the node loop
+      have g : ∀ d, Grow7 (fun P => if freshFor pod P d then 1 else 0) s
+          (match (applyDecision s pod ch d).2 with
+            | .error .inadmissible => (s, Out.bad)
+            | .error _ => ((applyDecision s pod ch d).1, ({ nodes := nodes } : Out))
+            | .ok set => ((filterNodes (applyDecision s pod ch d).1 set nodes []).1,
+                { nodes := (filterNodes (applyDecision s pod ch d).1 set nodes []).2 })).1 := by
+        intro d
+        cases d with
+        | fail r =>
+          unfold applyDecision
+          cases r <;> exact (Quiet7.refl s).grow _
+        | pass set =>
+          unfold applyDecision
+          exact (filterNodes_q set nodes [] s).grow _
+        | alloc resv n =>
+          have g := allocateDuringFilter_grow s pod resv n ch.pick
+          unfold applyDecision
+          dsimp only
+          generalize hr : (allocateDuringFilter s (keyOf pod) resv n (filterAttr pod) ch.pick).2 = r
+          cases r with
+          | ok => exact g.then_quiet (filterNodes_q _ _ _ _)
+          | err c => exact g
+          | inadmissible => exact (Quiet7.refl s).grow _
+      have g := g (decide7 Facts.good s pod ch)
+      refine ⟨g.pools, g.coh, fun P hP => ?_⟩
+      have gc := g.cnt P hP
+      by_cases hf : freshFor pod P (decide7 Facts.good s pod ch) = true
+      · right
+        rw [if_pos hf] at gc
+        cases hd : decide7 Facts.good s pod ch with
+        | fail r => rw [hd] at hf; simp [freshFor] at hf
+        | pass set => rw [hd] at hf; simp [freshFor] at hf
+        | alloc resv n =>
+          rw [hd] at hf
+          cases resv with
+          | true => simp [freshFor] at hf
+          | false =>
+            simp only [freshFor, beq_iff_eq] at hf
+            exact ⟨pod, rfl, hpol, hf, decide7_fresh s pod ch n hd, by rw [hd] at gc; exact gc⟩
+      · left
+        rw [if_neg hf] at gc
+        exact gc
+
 /-! ### the pool API -/
 
 theorem preLoop_grow (pre : Key) : ∀ (need : Nat) (s : State) (subs : List Subnet) (picks : List IP) (done : Nat),
